@@ -1,5 +1,8 @@
 import Flowjaxv.Driver.Util
 import Flowjaxv.Gen.LeavesAst
+import Flowjaxv.Model.AdFamilies
+import Flowjaxv.Gen.VecAst
+import Flowjaxv.Model.AdNet
 /-!
 Driver op for the reverse-mode model at IEEE `Float`:
 
@@ -56,5 +59,115 @@ def ad : Handler
       let vs ← vs.mapM parseFs
       pure (" | ".intercalate (es.map (fun e => runOne e x ss vs)))
   | _ => .error "bad ad op"
+
+/-- `adfam <Family> <pub|priv> <x> <loc> <raw scale> <raw df>` → `<value> <d/dx> <d/dloc> <d/draw scale> <d/draw df>`:
+the family's private `_log_prob` (or public `log_prob`) AST of `Model/AdFamilies.lean`, value and adjoints w.r.t. the
+input and the trainable leaves (ids 11, 12, 13). -/
+def adfam : Handler
+  | [fam, mode, x, loc, raw, rawdf] => do
+      let x ← parseF x
+      let loc ← parseF loc
+      let raw ← parseF raw
+      let rawdf ← parseF rawdf
+      let some f := (AdFam.family fam : Option (Expr Float → Expr Float)) | .error s!"unknown family {fam}"
+      let lp := f (Expr.var 0)
+      let e ← match mode with
+        | "priv" => pure lp
+        | "pub" => pure (AdFam.pub lp)
+        | _ => .error "mode"
+      let env : Env Float :=
+        { s := fun i => if i = 0 then x else if i = 11 then loc else if i = 12 then raw else if i = 13 then rawdf else 0,
+          v := fun _ => [] }
+      let g := e.vjp env 1
+      let d (i : Nat) := Grad.total g (Key.s i)
+      pure s!"{showF (e.eval env)} {showF (d 0)} {showF (d 11)} {showF (d 12)} {showF (d 13)}"
+  | _ => .error "bad adfam op"
+
+/-- value and adjoints of one output expression w.r.t. the scalars `1..ns` and every element of the vectors `0..nv-1` -/
+def runVec (e : Expr Float) (env : Env Float) (ns : Nat) (lens : List Nat) : String :=
+  let g := e.vjp env 1
+  let ds := (List.range ns).map (fun i => Grad.total g (Key.s (i + 1)))
+  let dv := lens.zipIdx.map (fun (len, j) => (List.range len).map (fun p => Grad.total g (Key.v j p)))
+  s!"{showF (e.eval env)} {showFs ds} " ++ " ".intercalate (dv.map showFs)
+
+/-- `adplanar <tanh|lrelu> <tl|il> <x> <weight> <act_scale> <bias> <negative_slope>` → for every output (the `d` elements of the
+point, then the log-det): `<value> <d/dbias,d/dslope> <d/dweight> <d/dact_scale> <d/dx>`, outputs separated by ` | ` -/
+def adplanar : Handler
+  | [act, m, x, w, u, b, slope] => do
+      let x ← parseFs x
+      let w ← parseFs w
+      let u ← parseFs u
+      let b ← parseF b
+      let slope ← parseF slope
+      let d := w.length
+      let xe : List (Expr Float) := Vec.ofVec 2 d
+      let (ys, ld) ← match act, m with
+        | "tanh", "tl" => pure (UnconditionalPlanar.transform_and_log_det_tanh.ast d xe)
+        | "lrelu", "tl" => pure (UnconditionalPlanar.transform_and_log_det_lrelu.ast d xe)
+        | "lrelu", "il" => pure (UnconditionalPlanar.inverse_and_log_det_lrelu.ast d xe)
+        | _, _ => .error "unknown planar kernel"
+      let env : Env Float := { s := fun i => if i = 1 then b else if i = 2 then slope else 0,
+                               v := fun j => if j = 0 then w else if j = 1 then u else if j = 2 then x else [] }
+      pure (" | ".intercalate ((ys ++ [ld]).map (fun e => runVec e env 2 [d, d, d])))
+  | _ => .error "bad adplanar op"
+
+/-- `admix <raw log-weights> <component log-probs>` → `<value> - <d/draw weights> <d/dcomponent log-probs>`: the generated
+`VmapMixture._log_prob` over the generated stored-weights lambda (`log_softmax`), adjoints w.r.t. both vectors -/
+def admix : Handler
+  | [ws, lps] => do
+      let ws ← parseFs ws
+      let lps ← parseFs lps
+      let k := ws.length
+      let e : Expr Float := VmapMixture.log_prob.ast (VmapMixture.log_normalized_weights.ast (Vec.ofVec 0 k)) (Vec.ofVec 1 k)
+      let env : Env Float := { s := fun _ => 0, v := fun j => if j = 0 then ws else if j = 1 then lps else [] }
+      pure (runVec e env 0 [k, k])
+  | _ => .error "bad admix op"
+
+/-- rows of layer `l` (weights = vector `1+2l` row-major, bias = vector `2+2l`); `mask = []` means unmasked -/
+private def netRows (l nin nout : Nat) (mask : List Float) : Net.Rows Float :=
+  (List.range nout).map (fun i =>
+    ((List.range nin).map (fun j =>
+        let w : Expr Float := Expr.get (1 + 2 * l) (fun _ => Int.ofNat (i * nin + j))
+        if mask.isEmpty then w else Net.masked (mask.getD (i * nin + j) 0 != 0) w),
+     Expr.get (2 + 2 * l) (fun _ => Int.ofNat i)))
+
+private def parseLayers : Nat → Nat → List String → Except String (List (Net.Rows Float) × List (List Float))
+  | _, _, [] => pure ([], [])
+  | l, nin, w :: m :: b :: rest => do
+      let w ← parseFs w
+      let m ← parseFs m
+      let b ← parseFs b
+      if w.length != nin * b.length then throw s!"layer {l}: weight size {w.length} != {nin} x {b.length}"
+      let (rs, vs) ← parseLayers (l + 1) b.length rest
+      pure (netRows l nin b.length m :: rs, w :: b :: vs)
+  | _, _, _ => throw "layers come as <weights> <mask> <bias> triples"
+
+/-- `adnet <coupling_t|coupling_i|maf_t> <relu|tanh> <u> <x> <min_scale> <init_loc> <init_raw> (<W> <mask|-> <b>)+`
+→ for every output (point elements, then log-det): `<value> - <d/dx> <d/dW0> <d/db0> …` separated by ` | `
+(`Model/AdNet.lean`: conditioner MLP + generated Affine transformer with `softplus + min_scale` scale). -/
+def adnet : Handler
+  | kind :: act :: u :: x :: ms :: il :: ir :: layers => do
+      let u ← parseNat u
+      let x ← parseFs x
+      let ms ← parseF ms
+      let il ← parseF il
+      let ir ← parseF ir
+      let act ← match act with
+        | "relu" => pure Prim.relu | "tanh" => pure Prim.tanh | _ => throw "activation"
+      let nin := if kind == "maf_t" then x.length else u
+      let (rows, vecs) ← parseLayers 0 nin layers
+      let some last := rows.getLast? | throw "no layers"
+      let net := Net.mlp act rows.dropLast last
+      let c (v : Float) : Expr Float := Expr.const v
+      let xe : List (Expr Float) := Vec.ofVec 0 x.length
+      let (ys, ld) ← match kind with
+        | "coupling_t" => pure (Net.coupling u net (Net.affineTld (c ms) · · (c il) (c ir) ·) xe)
+        | "coupling_i" => pure (Net.coupling u net (Net.affineIld (c ms) · · (c il) (c ir) ·) xe)
+        | "maf_t" => pure (Net.autoreg net (Net.affineTld (c ms) · · (c il) (c ir) ·) xe)
+        | _ => throw "kind"
+      let allv := x :: vecs
+      let env : Env Float := { s := fun _ => 0, v := fun j => allv.getD j [] }
+      pure (" | ".intercalate ((ys ++ [ld]).map (fun e => runVec e env 0 (allv.map List.length))))
+  | _ => .error "bad adnet op"
 
 end Drv
